@@ -577,6 +577,33 @@ pub fn analyze<'a>(prog: &'a Program, tr: &'a [Ev]) -> Analysis<'a> {
         a.encl.push(encl_here);
         a.runner_depth.push(rdepth);
     }
+    // An execution that panicked while a system was being created may name instances whose creation was never logged.
+    let max_named = a
+        .cmds
+        .iter()
+        .filter_map(|c| match &c.act {
+            RAct::Register { inst, .. } | RAct::SpawnSys { inst, .. } | RAct::With { inst, .. } | RAct::WrAdd { inst, .. } | RAct::EwAdd { inst, .. } => Some(*inst),
+            _ => None,
+        })
+        .max();
+    if let Some(m) = max_named {
+        if a.insts.len() <= m {
+            a.insts.resize(
+                m + 1,
+                InstInfo {
+                    ent: 0,
+                    kind: SysKindTag::Plain,
+                    flavour: Flavour::Ord,
+                    script: 0,
+                    created_pos: a.end_pos,
+                    mode: None,
+                    explicit_despawn: None,
+                    canary_drops: vec![],
+                    published_pos: None,
+                },
+            );
+        }
+    }
     build_ledger(&mut a);
     a
 }
